@@ -96,9 +96,24 @@ def stream_strict(lines, op, expected):
     return None
 
 # ---- C08 ------------------------------------------------------------------------------------------
+
+def rejected_wellformed(tr, what):
+    """C07/C08/C09 cases deliver only packets built by the encoders of tools/mqtt.py (well formed by construction): run()
+    giving up on one of them with a codec error leaves it, and everything after it, unacknowledged and undelivered"""
+    rr = tr.run_result()
+    if rr is not None and rr[1].startswith("err Codec") and not has(tr, "eof", "rerr", "werr"):
+        last = max([k for k, e in enumerate(tr.evs[:rr[0] + 1]) if e.startswith("deliver ")] or [-1])
+        return "accept: run() gave up with %s at event %d on a well-formed inbound packet (delivered at event %d: %s); %s" % (
+            rr[1][4:40], rr[0], last, tr.evs[last][8:72] if last >= 0 else "?", what)
+    return None
+
 @oracle("C08")
 def c08(case, lines):
     tr = Trace(case, lines)
+    if not (case.get("meta") or {}).get("malformed"):
+        r = rejected_wellformed(tr, "it and every later packet stay unacknowledged")
+        if r:
+            return r
     if tr.faulty or has(tr, "reconnect", "dropctx", "hold"):
         return None
     conn = connection_streams(tr)[0]
@@ -134,6 +149,10 @@ def c08(case, lines):
 @oracle("C09")
 def c09(case, lines):
     tr = Trace(case, lines)
+    if not (case.get("meta") or {}).get("malformed"):
+        r = rejected_wellformed(tr, "the message is never delivered")
+        if r:
+            return r
     if tr.faulty or has(tr, "reconnect", "dropctx", "hold", "dropstream"):
         return None
     conn = connection_streams(tr)[0]
@@ -588,6 +607,9 @@ def completion_monitor(case, lines, strict_content=True):
             continue
         pkt = own[0]
         pid = pkt.get("pid")
+        if "QuotaExceeded" in res or "MaximumPacketSizeExceeded" in res:
+            return "refused-late: operation %d (%s id %s) was written at event %d and then failed with %s: a request is refused locally before anything of it is sent, or not at all" % (
+                op, pkt["kind"], pid, fp[op], res[4:40])
         need = {"subscribe": [9], "unsubscribe": [11]}.get(pkt["kind"]) or ({1: [4], 2: [5, 7], 0: []}[pkt["qos"]])
         ok_res = res.startswith("ok") or res.startswith("err Pub")
         if ok_res and need:
@@ -659,6 +681,30 @@ def completion_monitor(case, lines, strict_content=True):
             continue
         pkt = own[0]
         t_ack = {"subscribe": 9, "unsubscribe": 11}.get(pkt["kind"]) or {1: 4, 2: None, 0: None}[pkt["qos"]]
+        if t_ack is None and pkt["kind"] == "publish" and pkt["qos"] == 2:
+            # QoS 2: the first PUBREC decides; >= 0x80 is final (and no PUBREL may follow), otherwise the PUBCOMP after
+            # the PUBREL is final. Only while the identifier is not reused by a later PUBLISH.
+            pid = pkt.get("pid")
+            reuse = min([k for k, i in outp if i["kind"] == "publish" and i.get("pid") == pid and k > fp[op]] + [limit])
+            recs = [(k, i) for k, i in acks_seen.get((5, pid), []) if fp[op] < k < reuse]
+            if recs:
+                k_rec, i_rec = recs[0]
+                if i_rec["reason"] >= 128:
+                    rel = [k for k, i in outp if i["kind"] == "pubrel" and i.get("pid") == pid and k_rec <= k < reuse]
+                    if rel:
+                        return "pubrel: a PUBREL for identifier %d was written at event %d after its PUBREC with reason %d (event %d)" % (pid, rel[0], i_rec["reason"], k_rec)
+                    later = [k for k in polls.get(op, []) if k_rec < k < reuse]
+                    if later and not done.get(op):
+                        return "pending: operation %d (publish id %s) still pending at event %d, its PUBREC with reason %d arrived at event %d" % (
+                            op, pid, later[-1], i_rec["reason"], k_rec)
+                else:
+                    rel = [k for k, i in outp if i["kind"] == "pubrel" and i.get("pid") == pid and k_rec <= k < reuse]
+                    comps = [k for k, i in acks_seen.get((7, pid), []) if rel and rel[0] < k < reuse]
+                    if comps:
+                        later = [k for k in polls.get(op, []) if comps[0] < k < reuse]
+                        if later and not done.get(op):
+                            return "pending: operation %d (publish id %s) still pending at event %d, its PUBCOMP arrived at event %d" % (op, pid, later[-1], comps[0])
+            continue
         if t_ack is None:
             continue
         arrived = [k for k, i in acks_seen.get((t_ack, pkt.get("pid")), []) if k > fp[op] and k < limit]
@@ -741,6 +787,10 @@ def c06_main(case, lines):
 @oracle("C07")
 def c07(case, lines):
     tr = Trace(case, lines)
+    if not (case.get("meta") or {}).get("malformed"):
+        r = rejected_wellformed(tr, "the message never reaches its stream")
+        if r:
+            return r
     if tr.faulty or has(tr, "reconnect", "hold"):
         return None
     conn = connection_streams(tr)[0]
@@ -839,6 +889,25 @@ def c15(case, lines):
                     was_dropped = any(re.match(r"dropop %d$" % o, e) for o in owner for e in tr.evs[:k])
                     if was_dropped:
                         return "k2: the PUBREC of QoS 2 publish id %d arrived after its future was dropped and no PUBREL was ever sent (the flow-control slot is never returned)" % i["pid"]
+    # a PUBREL that was requested (the future was polled after its PUBREC) is sent even if the future is dropped before the
+    # Context takes the request: the Context is committed to the exchange, only the PUBCOMP frees the slot
+    if not has(tr, "reconnect", "dropctx") and not tr.faulty and rr is None:
+        conn = connection_streams(tr)[0]
+        inp, outp = inbound(tr, conn), outbound(tr, conn)
+        if inp is not None and outp is not None:
+            fpolls = first_polls(tr)
+            q2 = {i["pid"]: k for k, i in outp if i["kind"] == "publish" and i["qos"] == 2 and not i["dup"]}
+            rels = set(i["pid"] for k, i in outp if i["kind"] == "pubrel")
+            for k, p in inp:
+                i = rx_info(p)
+                if i["t"] != 5 or i["reason"] >= 128 or i["pid"] not in q2 or q2[i["pid"]] >= k or i["pid"] in rels:
+                    continue
+                for o in [o for o, kk in fpolls.items() if kk == q2[i["pid"]]]:
+                    dropped_at = next((kk for kk, e in enumerate(tr.evs) if e == "dropop %d" % o), len(tr.evs))
+                    asked = [kk for kk, e in enumerate(tr.evs) if e in ("poll %d" % o, "fpoll %d" % o) and k < kk < dropped_at]
+                    ran_after = asked and (not has(tr, "hold") or any(e == "release" for e in tr.evs[asked[0]:]))
+                    if asked and ran_after and asked[0] < len(tr.evs) - 1:
+                        return "pubrel: the PUBREL of QoS 2 publish id %d was requested at event %d (poll after its PUBREC) but never written; its flow-control slot is never returned" % (i["pid"], asked[0])
     return c10(case, lines) if not has(tr, "hold") else None
 
 
